@@ -183,7 +183,7 @@ var C01 = &sim.Scenario{
 	Components: components,
 	Runs: func(th bool) int {
 		if th {
-			return 1000000
+			return 4000000
 		}
 		return 25000
 	},
